@@ -133,6 +133,20 @@ def litLoop : List Byte → List Byte → Bool → List Byte × List Byte × Boo
     else if !esc then (acc, c :: r, false, esc)
     else litLoop r (c :: acc) esc
 
+/-- character comparisons one `StrEndsWith( s, "\\S\\" )` call costs on a string of `len` characters -/
+def endsWithCost : EndsWithShape → Nat → Nat
+  | .suffixOnly, _ => 3
+  | .wholeString, len => len
+
+/-- cost of the `while( in.good() )` loop of `GetLiteralStr`: one unit per iteration plus, for every apostrophe,
+the cost of the `StrEndsWith` call on the string read so far (`acc`) — same recursion as `litLoop` -/
+def litLoopCost (sh : EndsWithShape) : List Byte → List Byte → Bool → Nat
+  | [], _, _ => 1
+  | c :: r, acc, esc =>
+    if c = chQuote then 1 + endsWithCost sh acc.length + litLoopCost sh r (c :: acc) (if endsSlashS acc then esc else !esc)
+    else if !esc then 1
+    else 1 + litLoopCost sh r (c :: acc) esc
+
 /-- `GetLiteralStr`: the stream afterwards and the string (with its quotes) -/
 def getLiteralStr (s : IS) : IS × List Byte :=
   let s := s.ws
